@@ -50,6 +50,145 @@ def _params(src, name, types):
     return m.groups()
 
 
+_CNAMES = {"INT64_MAX": "(9223372036854775807)", "INT64_MIN": "(-9223372036854775808)", "UINT64_MAX": "(18446744073709551615)",
+           "INT32_MAX": "(2147483647)", "INT32_MIN": "(-2147483648)", "UINT32_MAX": "(4294967295)", "DBL_MAX": "(1.7976931348623157e308)"}
+
+
+def _cdouble(expr, hdr, depth=0):
+    """value of the constant C expression `expr` once it stands in a comparison with a double, evaluated as the compiler does:
+    integer constants are converted to double (round to nearest even: `(double) INT64_MAX` is 2^63, `(double) UINT64_MAX` is 2^64).
+    Accepts literals, unary minus, parentheses, `(double)` casts, <stdint.h> limits and object-like macros of janet.h.  Returns an int
+    (a non-integral bound is refused)."""
+    e = expr
+    for _ in range(6):                                    # object-like macros of janet.h (JANET_INTMAX_DOUBLE, ...)
+        names = set(re.findall(r"\b[A-Za-z_]\w*\b", e)) - set(_CNAMES) - {"double"}
+        if not names:
+            break
+        for n in names:
+            m = re.search(r"^#define\s+%s\s+(.+)$" % re.escape(n), hdr, re.M)
+            if not m:
+                raise ExtractError("range bound `%s`: unknown name %s" % (expr, n))
+            e = re.sub(r"\b%s\b" % re.escape(n), "(" + _norm(m.group(1)) + ")", e)
+    e = re.sub(r"\(\s*double\s*\)", " float ", e)
+    for n, v in _CNAMES.items():
+        e = re.sub(r"\b%s\b" % n, v, e)
+    e = re.sub(r"(?<=[0-9.])(?:[uU]?[lL]{0,2}|[fF])\b", "", e)   # integer / float suffixes
+    while True:                                           # ` float X` -> float(X) for a parenthesised or literal X
+        m = re.search(r" float\s*(\(|-?[0-9.]+(?:[eE][-+]?\d+)?)", e)
+        if not m:
+            break
+        if m.group(1) == "(":
+            j = _match_paren(e, m.end() - 1)
+            e = e[:m.start()] + "F(" + e[m.end():j - 1] + ")" + e[j:]
+        else:
+            e = e[:m.start()] + "F(" + m.group(1) + ")" + e[m.end():]
+    if not re.fullmatch(r"[0-9.eE+\-()F\s]+", e):
+        raise ExtractError("range bound `%s`: not a constant this translator evaluates (%s)" % (expr, e))
+    try:
+        v = float(eval(e, {"__builtins__": {}}, {"F": float}))          # the comparison converts the bound to double
+    except Exception as ex:
+        raise ExtractError("range bound `%s`: %s" % (expr, ex))
+    if v != v or v in (float("inf"), float("-inf")) or v != int(v):
+        raise ExtractError("range bound `%s` = %r is not an integer" % (expr, v))
+    return int(v)
+
+
+def _match_paren(s, i):
+    """index just past the parenthesis matching s[i] == '('"""
+    depth = 0
+    for j in range(i, len(s)):
+        if s[j] == "(":
+            depth += 1
+        elif s[j] == ")":
+            depth -= 1
+            if depth == 0:
+                return j + 1
+    raise ExtractError("unbalanced parentheses in " + s)
+
+
+def _split_top(e, op):
+    """split at top-level occurrences of the two-character operator `op`"""
+    parts, depth, last, i = [], 0, 0, 0
+    while i < len(e):
+        if e[i] == "(":
+            depth += 1
+        elif e[i] == ")":
+            depth -= 1
+        elif depth == 0 and e.startswith(op, i):
+            parts.append(e[last:i])
+            last = i + 2
+            i += 1
+        i += 1
+    parts.append(e[last:])
+    return [p.strip() for p in parts]
+
+
+def _strip_parens(e):
+    e = e.strip()
+    while e.startswith("(") and _match_paren(e, 0) == len(e):
+        e = e[1:-1].strip()
+    return e
+
+
+def _unwrap_window(b, kind, hdr):
+    """number branch of janet_unwrap_<kind> (locals already canonical: `d`): the accepted window as inclusive integer bounds.
+    Recognised: `if (!MACRO(d)) break;` with MACRO(x) of janet.h a conjunction, an inline conjunction under `!`, or an inline
+    disjunction of rejections; atoms are comparisons of d with a constant and an integrality test (`d == (T) d`, `d == floor(d)`,
+    `d != floor(d)` as a rejection).  Then `return (T) d;`."""
+    ctype = {"s64": "int64_t", "u64": "uint64_t"}[kind]
+    m = re.search(r"case JANET_NUMBER ?: \{ double d = janet_unwrap_number\(x\); if \((.*?)\) break; return \(%s\) ?d; \}" % ctype, b)
+    if not m:
+        raise ExtractError("janet_unwrap_%s: number branch not recognised: %s" % (kind, b[:300]))
+    cond = _strip_parens(m.group(1))
+    how = "inline"
+    mm = re.fullmatch(r"!\s*(\w+)\s*\(\s*d\s*\)", cond)
+    if mm:                                                  # through a macro of janet.h
+        how = mm.group(1)
+        md = re.search(r"^#define\s+%s\((\w+)\)\s+(.+)$" % re.escape(how), hdr, re.M)
+        if not md:
+            raise ExtractError("janet_unwrap_%s: range macro %s not found in janet.h" % (kind, how))
+        body = re.sub(r"\(\s*%s\s*\)" % re.escape(md.group(1)), "d", _norm(md.group(2)))
+        body = re.sub(r"\b%s\b" % re.escape(md.group(1)), "d", body)
+        atoms = [(a, True) for a in _split_top(_strip_parens(body), "&&")]
+    elif cond.startswith("!") and _strip_parens(cond[1:]) != cond[1:].strip():
+        atoms = [(a, True) for a in _split_top(_strip_parens(cond[1:]), "&&")]
+    else:
+        atoms = [(a, False) for a in _split_top(cond, "||")]          # each disjunct rejects
+    lo = hi = None
+    integral = False
+    flip = {"<": ">", ">": "<", "<=": ">=", ">=": "<="}
+    neg = {"<": ">=", ">": "<=", "<=": ">", ">=": "<", "==": "!=", "!=": "=="}
+    for a, accept in atoms:
+        a = _strip_parens(a)
+        mc = re.fullmatch(r"(.+?)\s*(<=|>=|==|!=|<|>)\s*(.+)", a)
+        if not mc:
+            raise ExtractError("janet_unwrap_%s: range test atom `%s` not recognised" % (kind, a))
+        l, op, r = _strip_parens(mc.group(1)), mc.group(2), _strip_parens(mc.group(3))
+        if not accept:
+            op = neg[op]
+        if op in ("==", "!="):
+            other = r if l == "d" else (l if r == "d" else None)
+            if op == "==" and other is not None and re.fullmatch(r"\(\s*%s\s*\)\s*\(?\s*d\s*\)?|(floor|trunc|ceil|rint|nearbyint|round)\s*\(\s*d\s*\)" % ctype, other):
+                integral = True
+                continue
+            raise ExtractError("janet_unwrap_%s: range test atom `%s` not recognised" % (kind, a))
+        if r == "d" and l != "d":
+            l, r, op = r, l, flip[op]
+        if l != "d":
+            raise ExtractError("janet_unwrap_%s: range test atom `%s` not recognised" % (kind, a))
+        v = _cdouble(r, hdr)
+        if op in (">=", ">"):
+            v = v if op == ">=" else v + 1
+            lo = v if lo is None else max(lo, v)
+        else:
+            v = v if op == "<=" else v - 1
+            hi = v if hi is None else min(hi, v)
+    if lo is None or hi is None or not integral:
+        raise ExtractError("janet_unwrap_%s: number branch needs a lower bound, an upper bound and an integrality test: `%s`" % (kind, cond))
+    return lo, hi, how
+
+
+
 def _has_minneg_guard(body, divisor, dividend, before):
     """an `if ((divisor == -1) && (dividend == INT64_MIN)) janet_panic(` (either order) textually before `before`"""
     cut = body.find(before)
@@ -284,20 +423,6 @@ def extract(tree):
     if "if (y < 0) { return janet_wrap_number(1); } else if (x > INT64_MAX) { return janet_wrap_number(1); }" not in b:
         raise ExtractError("cfun_it_u64_compare: u64/s64 arm changed")
 
-    # ---- unwrap: accepted operand types and range checks -----------------------------------------------
-    for kind, chk, scan in (("s64", "janet_checkint64range", "janet_scan_int64"), ("u64", "janet_checkuint64range", "janet_scan_uint64")):
-        b = csrc.func_body(src, "janet_unwrap_" + kind)
-        mp = {_params(src, "janet_unwrap_" + kind, ("Janet",))[0]: "x"}          # locals by role (a renamed local is harmless)
-        for pat, canon in ((r"double\s+(\w+)\s*=\s*janet_unwrap_number\s*\(", "d"), (r"const\s+uint8_t\s*\*\s*(\w+)\s*=\s*janet_unwrap_string\s*\(", "str"),
-                           (r"void\s*\*\s*(\w+)\s*=\s*janet_unwrap_abstract\s*\(", "abst"), (r"\bu?int64_t\s+(\w+)\s*;", "value")):
-            mm_ = re.search(pat, b)
-            if mm_:
-                mp[mm_.group(1)] = canon
-        b = _norm(_rename(b, mp))
-        if "if (!%s(d)) break; return (%s) d;" % (chk, {"s64": "int64_t", "u64": "uint64_t"}[kind]) not in b or \
-           "if (%s(str, janet_string_length(str), &value)) return value;" % scan not in b or \
-           "janet_abstract_type(abst) == &janet_s64_type || (janet_abstract_type(abst) == &janet_u64_type)" not in b:
-            raise ExtractError("janet_unwrap_%s: shape changed: %s" % (kind, b[:300]))
     hdr = csrc.strip_comments(csrc.read(tree, "src/include/janet.h"))
     def hdef(name):
         m = re.search(r"^#define\s+%s\s+(.+)$" % re.escape(name), hdr, re.M)
@@ -318,10 +443,22 @@ def extract(tree):
     g["intMaxDouble"] = dblint(hdef("JANET_INTMAX_DOUBLE"))
     g["intMinDouble"] = dblint(hdef("JANET_INTMIN_DOUBLE"))
     g["intMaxInt64"] = int(hdef("JANET_INTMAX_INT64").strip("()"))
-    if hmac("janet_checkint64range") != "((x) >= JANET_INTMIN_DOUBLE && (x) <= JANET_INTMAX_DOUBLE && (x) == (int64_t)(x))":
-        raise ExtractError("janet_checkint64range changed: " + hmac("janet_checkint64range"))
-    if hmac("janet_checkuint64range") != "((x) >= 0 && (x) <= JANET_INTMAX_DOUBLE && (x) == (uint64_t)(x))":
-        raise ExtractError("janet_checkuint64range changed: " + hmac("janet_checkuint64range"))
+    # ---- unwrap: accepted operand types; the number branch's window is REGENERATED (not matched as text) -----
+    for kind, scan in (("s64", "janet_scan_int64"), ("u64", "janet_scan_uint64")):
+        b = csrc.func_body(src, "janet_unwrap_" + kind)
+        mp = {_params(src, "janet_unwrap_" + kind, ("Janet",))[0]: "x"}          # locals by role (a renamed local is harmless)
+        for pat, canon in ((r"double\s+(\w+)\s*=\s*janet_unwrap_number\s*\(", "d"), (r"const\s+uint8_t\s*\*\s*(\w+)\s*=\s*janet_unwrap_string\s*\(", "str"),
+                           (r"void\s*\*\s*(\w+)\s*=\s*janet_unwrap_abstract\s*\(", "abst"), (r"\bu?int64_t\s+(\w+)\s*;", "value")):
+            mm_ = re.search(pat, b)
+            if mm_:
+                mp[mm_.group(1)] = canon
+        b = _norm(_rename(b, mp))
+        if "if (%s(str, janet_string_length(str), &value)) return value;" % scan not in b or \
+           "janet_abstract_type(abst) == &janet_s64_type || (janet_abstract_type(abst) == &janet_u64_type)" not in b:
+            raise ExtractError("janet_unwrap_%s: shape changed: %s" % (kind, b[:300]))
+        lo, hi, how = _unwrap_window(b, kind, hdr)
+        g["unwrap%sLo" % kind.upper()], g["unwrap%sHi" % kind.upper()] = lo, hi
+        g["unwrap%sTest" % kind.upper()] = how
     if hmac("janet_checkintrange") != "((x) >= INT32_MIN && (x) <= INT32_MAX && (x) == (int32_t)(x))":
         raise ExtractError("janet_checkintrange changed")
     if hmac("janet_checkuintrange") != "((x) >= 0 && (x) <= UINT32_MAX && (x) == (uint32_t)(x))":
@@ -571,6 +708,12 @@ def render(tree):
     o.append("abbrev intMaxDouble : Int := %d" % g["intMaxDouble"])
     o.append("abbrev intMinDouble : Int := (%d)" % g["intMinDouble"])
     o.append("abbrev intMaxInt64 : Int := %d" % g["intMaxInt64"])
+    o.append("/-- number branch of janet_unwrap_s64 / janet_unwrap_u64: accepted window (inclusive, integral doubles only), regenerated from the\n"
+             "    range test (%s / %s); bounds evaluated as doubles the way the C compiler does (`(double) INT64_MAX` = 2^63) -/" % (g["unwrapS64Test"], g["unwrapU64Test"]))
+    o.append("abbrev unwrapS64Lo : Int := (%d)" % g["unwrapS64Lo"])
+    o.append("abbrev unwrapS64Hi : Int := (%d)" % g["unwrapS64Hi"])
+    o.append("abbrev unwrapU64Lo : Int := (%d)" % g["unwrapU64Lo"])
+    o.append("abbrev unwrapU64Hi : Int := (%d)" % g["unwrapU64Hi"])
     o.append("abbrev scanMaxLen : Nat := %d" % g["scanMaxLen"])
     o.append("def digitLookup : List Nat := [%s]\n" % ", ".join(str(x) for x in g["digitLookup"]))
     o.append("/-- vm.c: (opcode, template, C operator = method name) -/")
